@@ -206,7 +206,55 @@ def fixedarray_search(part, N):
                 r = S.attempt(base + ".IndexAsScalar(%d)" % i, lambda: f.IndexAsScalar(i), True if valid_i else None, f)
                 if r is not None and valid_i and not (r.value == list(f.GetValues())[i] and r.GetQuantity() == q):
                     part.violation("C11:IndexAsScalar:" + base + ".IndexAsScalar(%d)" % i, {"result": repr(r)})
+            if unit in ("m", "cm", "km"):
+                shared_container_sequences(part, db, f, how)
     return S
+
+
+def shared_container_sequences(part, db, f, how):
+    """Two FixedArrays that share ONE values container but carry different units, queried alternately for
+    the same target unit (a result must not depend on what another array was asked before)."""
+    d = f.dimension
+    unit = f.GetUnit()
+    cat = f.GetCategory()
+    other = "cm" if unit != "cm" else "m"
+    shared = f.GetValues()
+    twins = [
+        ("CreateCopy(values=<same container>, unit=%r)" % other, lambda: f.CreateCopy(values=shared, unit=other)),
+        ("FixedArray(%d, <same container>, %r)" % (d, other), lambda: FixedArray(d, shared, other)),
+    ]
+    for tname, mk in twins:
+        try:
+            g = mk()
+        except Exception as e:
+            part.violation("C11:shared-container:(%s).%s:raised" % (how, tname), {"error": repr(e)})
+            continue
+        for target in ("km", "m", "cm"):
+            tq = ObtainQuantity(target, cat)
+            seq = [(f, unit, "a"), (g, other, "b"), (f, unit, "a"), (g, other, "b")]
+            done = []
+            for obj, u, nm in seq:
+                for i in (0, d - 1):
+                    part.count("evaluations")
+                    done.append("%s.IndexAsScalar(%d, %s)" % (nm, i, target))
+                    r = obj.IndexAsScalar(i, tq)
+                    e = db.Convert("length", u, target, float(list(obj.GetValues())[i]))
+                    if not (r.GetUnit() == target and close(r.value, e, max(abs(e), 1e-300), 1e-12)):
+                        part.violation(
+                            "C11:shared-container:a = %s ; b = a.%s ; %s" % (how, tname, " ; ".join(done)),
+                            {"result": repr(r), "expected_value": e},
+                            "import numpy as np\nfrom mc import worlds\nfrom barril.units import *\nfrom barril.units import FixedArray, ObtainQuantity\nwith worlds.world('posc') as db:\n    a = %s\n    b = FixedArray(a.dimension, a.GetValues(), %r)\n    q = ObtainQuantity(%r, a.GetCategory())\n    r1 = a.IndexAsScalar(0, q)\n    r2 = b.IndexAsScalar(0, q)\n    print(r1, r2)\n    assert abs(r2.value - db.Convert('length', %r, %r, float(list(b.GetValues())[0]))) <= 1e-12 * abs(r2.value)\n" % (how, other, target, other, target),
+                        )
+                        return
+                part.count("evaluations")
+                done.append("%s.ChangingIndex(1, 7.5, use_value_unit=False).GetValues(%s)" % (nm, target))
+                r = obj.ChangingIndex(1, 7.5, use_value_unit=False)
+                got = [float(x) for x in r.GetValues(target)]
+                exp = [db.Convert("length", u, target, 7.5 if j == 1 else float(list(obj.GetValues())[j])) for j in range(d)]
+                if not all(close(a, b, max(abs(b), 1e-300), 1e-12) for a, b in zip(got, exp)):
+                    part.violation("C11:shared-container:a = %s ; b = a.%s ; %s" % (how, tname, " ; ".join(done)), {"result": got, "expected": exp})
+                    return
+        part.count("shared_container_sequences")
 
 
 def curve_search(part, N):
@@ -279,6 +327,27 @@ def curve_search(part, N):
                     if k not in seen:
                         seen.add(k)
                         work.append((how + " ; " + step, mi, md))
+                    # one more call on the SAME curve after every accepted or rejected call (a rejected
+                    # call merges with its source in the state graph: its futures must be the same)
+                    size1 = n if err is None else size
+                    for n2 in range(N + 1):
+                        for lit2, mk2 in arrays(n2):
+                            for meth2 in ("SetImage", "SetDomain"):
+                                c2 = Curve(mi(), md())
+                                try:
+                                    getattr(c2, meth.replace("=", "") if "=" not in meth else "Set" + meth[0].upper() + meth[1:-1])(mk())
+                                except Exception:
+                                    pass
+                                step2 = "c.%s(%s)" % (meth2, lit2)
+                                try:
+                                    getattr(c2, meth2)(mk2())
+                                    err2 = None
+                                except Exception as e:
+                                    err2 = e
+                                part.count("curve_second_steps")
+                                judge(c2, how + " ; " + ("try: %s\n    except ValueError: pass" % step if err else step) + " ; " + ("try: %s\n    except ValueError: pass" % step2 if err2 else step2), err2)
+                                if (err2 is None) != (n2 == size1) or (err2 is not None and not isinstance(err2, ValueError)):
+                                    part.violation("C11:curve-verdict:" + how + " ; " + step + " ; " + step2, {"raised": repr(err2), "curve_length": size1, "new_length": n2, "first_step_rejected": err is not None})
     return len(seen), transitions
 
 
@@ -297,7 +366,7 @@ def run(ctx):
         part.sample({"state": k, "first_reached_by": how})
     ctx.rule = (
         "worklist search to a fixpoint: FixedArray states (dimension, container kind, unit, category) from every constructor form x dimension 0..%d x length 0..%d x container kind, closed under CreateCopy / arithmetic / pickle / ChangingIndex / IndexAsScalar; "
-        "Curve states (len image, len domain) closed under SetImage / SetDomain; non-trivial = distinct canonical states; outcomes = distinct (operation, result class / exception)" % (N, N)
+        "two FixedArrays sharing one container with different units queried alternately; Curve states (len image, len domain) closed under SetImage / SetDomain, every accepted or rejected call followed by every call once more on the same curve; non-trivial = distinct canonical states; outcomes = distinct (operation, result class / exception)" % (N, N)
     )
     ctx.coverage_extra = {"fixpoint": True, "fixedarray_states": len(S.seen), "curve_states": cs, "rejected_attempts": part.counters.get("rejected", 0), "alphabet": {"max_dimension": N, "containers": list(KINDS)}}
     ctx.assumptions = [
